@@ -42,6 +42,7 @@ func gen(t *rapid.T) Case {
 		CliDirect:     rapid.Bool().Draw(t, "cli_direct"),
 		Link:          "frame",
 	}
+	kit.DrawBuffers(t, &c.M)
 	n := rapid.IntRange(1, 4).Draw(t, "streams")
 	for i := 0; i < n; i++ {
 		s := StreamSpec{
